@@ -43,7 +43,10 @@
        UncappedSpaceCount          ODF: <text:s text:c="N"/> materialises N spaces
        DenseGridFromSparseCells    XLSX: rows/cells between sparse cells are padded (rows x columns)
        XrefPrevLoop                pypdf: an xref /Prev cycle is followed for ever
+       (repaired, now sensitivity-only: /repo a25ab31 and 0121224, KF-C12-08 / KF-C12-09)
        FromLineNestedQuantifier    mbox: MBOX_FROM_PATTERN (a non-space run followed by an any-run) needs quadratic time on a long unmatched "From xxxx" line
+       CoderSizeFromOtherCoder     7z: an LZMA2 coder in a chain is limited by the LARGEST declared coder size of its folder,
+                                   not by its own
        PngScanRestartsInsideImage  doc: the PNG scan resumes one byte after a signature, also after an accepted picture,
                                    so nested signatures yield n overlapping copies
    Sensitivity-only deviations (mutations the check must catch; never as-built):
@@ -59,7 +62,8 @@
        scanner that does not advance over a zero-length segment), ExtractAllIgnoresFilter (7z: extractall()
        decompresses and writes every folder / member -- the behaviour before /repo 62243a0, KF-C12-02 fixed),
        DibScanAdvancesByHeader (doc: the bitmap scan advances by the 40-byte header instead of the bitmap),
-       FromLineSecondStar (mbox: a second any-run after the year in the separator pattern).
+       FromLineSecondStar (mbox: a second any-run after the year in the separator pattern),
+       DeclaredZeroMeansUnknown (7z: an LZMA folder declared with size 0 is decoded "until the end marker").
 
    DON'T-CAREs: max_file_size < 0; whether read_file stats the file when max_file_size = 0; the attributes
    of the TooLarge exception; in-memory decompression of a skipped member that shares a solid 7z folder with
@@ -71,12 +75,13 @@ EXTENDS Naturals, Sequences, FiniteSets, TLC
 
 CONSTANT Deviations
 
-AsBuiltDeviations == {"UncappedNonEmptyRepeat", "FromLineNestedQuantifier", "PngScanRestartsInsideImage",
+AsBuiltDeviations == {"UncappedNonEmptyRepeat", "CoderSizeFromOtherCoder",
                       "UnboundedVectorCount", "UncappedSpaceCount", "DenseGridFromSparseCells", "XrefPrevLoop"}
 SensitivityDeviations == {"FlipCompare", "GuardAfterLoad", "DecompressBeforeCheck", "NoEmptyCap", "PlainXmlParser",
                           "NoOutputLimit", "GuardOnLinkSize", "FollowLinksUnchecked", "ReadByNameLast",
                           "EmptyFileTakesSizeSlot", "ConfigureForgetsLimit", "ImageScanNoProgress",
-                          "ExtractAllIgnoresFilter", "DibScanAdvancesByHeader", "FromLineSecondStar"}
+                          "ExtractAllIgnoresFilter", "DibScanAdvancesByHeader", "FromLineSecondStar",
+                          "DeclaredZeroMeansUnknown", "FromLineNestedQuantifier", "PngScanRestartsInsideImage"}
 DeviationNames == AsBuiltDeviations \cup SensitivityDeviations
 ASSUME Deviations \subseteq DeviationNames
 
@@ -208,6 +213,24 @@ LongLineDev(pos) ==
                 "nonspace.eof.only"} THEN "FromLineNestedQuantifier"
     ELSE IF pos \in {"years.eof.last", "years.eof.only"} THEN "FromLineSecondStar" ELSE ""
 
+\* pos = "<coder>.<declared>.<end marker>"; declared: zero | smaller (16 bytes) | larger (8 MiB declared, the stream
+\* holds 1 KiB) | firstbig (BCJ coder declares mag, the compressor and the member 16 bytes)
+DeclZero == {"copy.zero.na", "lzma.zero.end", "lzma2.zero.end", "lzma2.zero.noend", "bcj+lzma.zero.end", "bcj+lzma2.zero.end"}
+DeclSmaller == {"copy.smaller.na", "lzma.smaller.end", "lzma2.smaller.end", "lzma2.smaller.noend", "bcj+lzma.smaller.end",
+                "bcj+lzma2.smaller.end"}
+DeclLarger == {"copy.larger.na", "lzma.larger.end", "lzma2.larger.end", "lzma2.larger.noend", "bcj+lzma.larger.end",
+               "bcj+lzma2.larger.end"}
+DeclFirstBig == {"bcj+lzma.firstbig.end", "bcj+lzma2.firstbig.end"}
+DeclaredCap(pos, mag) ==
+    IF pos \in {"copy.zero.na", "copy.smaller.na", "copy.larger.na"} THEN mag      \* Copy: the bytes are in the file
+    ELSE IF pos \in DeclZero THEN 0 ELSE IF pos \in DeclSmaller \cup DeclFirstBig THEN 16 ELSE 1024
+DeclaredDev(pos) ==
+    IF pos \in {"lzma.zero.end", "bcj+lzma.zero.end"} THEN "DeclaredZeroMeansUnknown"
+    ELSE IF pos = "bcj+lzma2.firstbig.end" THEN "CoderSizeFromOtherCoder"
+    ELSE IF pos \in {"lzma2.zero.end", "lzma2.zero.noend", "lzma2.smaller.end", "lzma2.smaller.noend",
+                     "bcj+lzma2.zero.end", "bcj+lzma2.smaller.end"} THEN "NoOutputLimit"
+    ELSE ""
+
 Items(c, mag, pos, skib) ==
     CASE c = "odf_space_count" -> <<Item(mag, ByteLo, ByteHi, SpaceCap, "UncappedSpaceCount")>>
       [] c = "xlsx_dimension" ->
@@ -223,6 +246,11 @@ Items(c, mag, pos, skib) ==
            IF pos = "honest" THEN <<Item(mag, ByteLo, ByteHi, 0, "ExtractAllIgnoresFilter")>>   \* above the limit: skipped
            ELSE IF pos = "lying" THEN <<Item(mag, ByteLo, ByteHi, 16, "NoOutputLimit")>>        \* declared 16 bytes
            ELSE <<Item(mag, ByteLo, ByteHi, mag, "")>>                              \* admitted: counted in the input size
+      \* 7z, one member: the header's declared sizes against what the packed stream yields (mag bytes).  What is
+      \* produced is bounded by what is DECLARED for the coder that produces it (and the stream's own end),
+      \* never by another coder's size and never "unknown" because a size is 0.
+      [] c = "sevenz_declared" ->
+           <<Item(mag, ByteLo, ByteHi, DeclaredCap(pos, mag), DeclaredDev(pos))>>
       [] c \in {"targz_ratio", "zip_ratio"} ->
            IF pos = "skipped" THEN <<Item(mag, ByteLo, ByteHi, 0, "")>> ELSE <<Item(mag, ByteLo, ByteHi, mag, "")>>
       [] c = "mbox_from" -> <<Item(mag, 64, 8192, mag, "")>>
